@@ -608,3 +608,53 @@ def pure_table_accessors(rule, prog, owner_ty, want=None):
             continue
         rule.ok(key, "%s(x) = self.%s.get(x) on every path, nothing else decides the result" % (short, ".".join(self_path(b.expr_operand(gt["args"][0])))))
     return n
+
+
+def value_reaches_processor(rule, prog, key="processed"):
+    """Shared rule body: in the fixed key event, whenever the layout look-up yields a value, that value is handed to the key-value processor — the call
+    post-dominates the look-up's Some edge (no early return, no filter between the table and the composition rules) and its argument is the look-up's
+    own payload.  A key whose value is dropped in between appends nothing although the layout assigns it a string."""
+    from . import c13
+    from engine.analyses import contains_call
+    fnk = layout_table_fn(prog)
+    kv = c13.key_value_processor(prog)
+    handler = None
+    for t in prog.method_structs():
+        k = prog.method_impl(t, "get_suggestion")
+        if fnk in prog.callgraph()[k]:
+            handler = k
+    if handler is None:
+        rule.undecidable(key, "no Method::get_suggestion calls the key→entry table")
+        return
+    b = prog.body(handler)
+    look = [bb for (bb, t) in b.calls() if callee_name(t) == fnk]
+    proc = [bb for (bb, t) in b.calls() if callee_name(t) == kv]
+    if len(look) != 1 or len(proc) != 1:
+        rule.undecidable(key, "expected one layout look-up and one call of the key-value processor in the key event, found %d / %d" % (len(look), len(proc)), fn_line(prog, handler))
+        return
+    lt = b.blocks[look[0]]["term"]
+    pt = b.blocks[proc[0]]["term"]
+    arg = b.expr_operand(pt["args"][1])
+    if contains_call(arg, lambda n: n == fnk) is None:
+        rule.violation(key, "the key-value processor is given %r, not the value the layout look-up returned" % (strip_refs(arg),), site_dict(prog, handler, b, proc[0]))
+        return
+    # the switch on the look-up's result: the edge that leads to the processor must be post-dominated by it
+    sw = None
+    for s_ in b.rblocks:
+        t = b.blocks[s_]["term"]
+        if t["k"] == "switch":
+            d = strip_refs(b.expr_operand(t["discr"]))
+            if d.k == "discr" and strip_refs(d.a[0]).k == "call" and strip_refs(d.a[0]).a[0] == fnk:
+                sw = s_
+    if sw is None:
+        rule.undecidable(key, "the key event does not branch on the look-up's result", fn_line(prog, handler))
+        return
+    some_tgts = [tgt for (node, vals, tgt) in b.switch_edges(sw) if proc[0] in b.reachable_from(tgt) or tgt == proc[0]]
+    if len(some_tgts) != 1:
+        rule.undecidable(key, "cannot tell the look-up's Some edge (%d edges reach the processor)" % len(some_tgts), site_dict(prog, handler, b, sw))
+        return
+    if some_tgts[0] == proc[0] or b.postdominates(proc[0], some_tgts[0]):
+        rule.ok(key, "every value the layout look-up yields is handed to the key-value processor (the call post-dominates the Some edge)")
+    else:
+        rule.violation(key, "between the layout look-up and the key-value processor the key event can return: a key the layout assigns a value to is dropped "
+                       "under some condition and appends nothing", site_dict(prog, handler, b, some_tgts[0]))
